@@ -1448,14 +1448,43 @@ func (b *Builder) Finish(tsMode int, jitter int64) (types.Block, consensus.V1Blo
 		b.label("v2-format-block-before-allow-height")
 	}
 	miner := b.drawLock("miner", b.v1Allowed()).Address()
+	// miner payout: reward + fees by the independent schedule. A block in the v1 format may divide it among several
+	// payouts (a pool paying its members directly); the v2 format has exactly one.
+	reward := ref.BlockReward(b.C.Net.InitialCoinbase, b.C.Net.MinimumCoinbase, b.Child)
+	total := new(big.Int).Add(reward, b.fees)
+	payouts := []types.SiacoinOutput{{Value: cur(total), Address: miner}}
+	if blk.V2 == nil && total.Cmp(big.NewInt(8)) > 0 && rapid.IntRange(0, 2).Draw(b.T, "splitPayout") == 0 {
+		k := rapid.IntRange(2, 4).Draw(b.T, "payouts")
+		left := new(big.Int).Set(total)
+		payouts = nil
+		for i := 0; i < k; i++ {
+			part := new(big.Int).Set(left)
+			if i < k-1 {
+				// 1 .. left-(k-1-i): every later payout keeps at least one hasting
+				room := new(big.Int).Sub(left, big.NewInt(int64(k-1-i)))
+				part = new(big.Int).Quo(new(big.Int).Mul(room, big.NewInt(int64(rapid.IntRange(1, 1000).Draw(b.T, "payoutShare")))), big.NewInt(1000))
+				if part.Sign() == 0 {
+					part.SetInt64(1)
+				}
+			}
+			left.Sub(left, part)
+			addr := miner
+			if i > 0 && rapid.Bool().Draw(b.T, "payoutOtherAddr") {
+				addr = b.drawLock("miner2", b.v1Allowed()).Address()
+			}
+			payouts = append(payouts, types.SiacoinOutput{Value: cur(part), Address: addr})
+		}
+		blk.MinerPayouts = payouts
+		b.label(fmt.Sprintf("miner-payouts-%d", k))
+	}
 	if err := Seal(b.CS, &blk, miner); err != nil {
 		return blk, consensus.V1BlockSupplement{}, nil, err
 	}
 	bs := b.C.Store.Supplement(blk, b.Child, b.C.Net.HardforkV2.RequireHeight)
 	bid := blk.ID()
-	// miner payout: reward + fees by the independent schedule
-	reward := ref.BlockReward(b.C.Net.InitialCoinbase, b.C.Net.MinimumCoinbase, b.Child)
-	b.expectSC(bid.MinerOutputID(0), types.SiacoinOutput{Value: cur(new(big.Int).Add(reward, b.fees)), Address: miner}, b.maturity(), "miner payout")
+	for i, p := range payouts {
+		b.expectSC(bid.MinerOutputID(i), p, b.maturity(), "miner payout")
+	}
 	if sub, ok := ref.FoundationSubsidy(b.Child, b.C.Net.HardforkFoundation.Height, b.C.Net.BlockInterval, b.CS.FoundationSubsidyAddress == types.VoidAddress); ok {
 		b.expectSC(bid.FoundationOutputID(), types.SiacoinOutput{Value: cur(sub), Address: b.CS.FoundationSubsidyAddress}, b.maturity(), "foundation subsidy")
 		b.label("foundation-subsidy")
